@@ -6,7 +6,8 @@
              re-marshal must give exactly the observed list, padding state included.
    CWire   : byte-exact: both ClientHellos from the wire and uconn.Extensions before as codec-model values
              (harness/extcoq); the model must reproduce hello 1 from the list and hello 2 from the list
-             after its HRR step (fresh key-share bytes and cookie position read back from hello 2).
+             after its HRR step (fresh key-share bytes and cookie position read back from hello 2); the share read back
+             must be fresh (fresh_share: no infix of any key share of the first hello).
    CReject : an invalid HelloRetryRequest: the alert the client sent equals Negotiate.process_hrr's, and no
              second hello was sent. *)
 From UV Require Export Base.Common Model.Padding Model.Marshal Model.Prng Model.Hrr.
@@ -70,6 +71,22 @@ Definition parse_hdr (raw : bytes) : option hello_hdr :=
   | _ => None
   end.
 
+(* "the retry share is fresh": its bytes occur in no key_exchange string of the first hello, whole or as a part
+   (a hybrid share carries an X25519 public key after the ML-KEM key) *)
+Fixpoint is_prefix (a b : bytes) : bool :=
+  match a, b with
+  | [], _ => true
+  | x :: a', y :: b' => (x =? y) && is_prefix a' b'
+  | _, [] => false
+  end.
+Fixpoint is_infix (a b : bytes) : bool :=
+  is_prefix a b || match b with [] => false | _ :: b' => is_infix a b' end.
+Definition fresh_share (share : bytes) (es : list hext) : bool :=
+  match share with
+  | [] => true
+  | _ => forallb (fun e => match e with HKeyShare ks => forallb (fun k => negb (is_infix share (snd k))) ks | _ => true end) es
+  end.
+
 Inductive case :=
 | CStep (sidlen nsuites ncomp npsk g sharelen : N) (cookie : bytes) (idx : N) (before after : list sk)
 | CWire (raw1 raw2 : bytes) (npsk g : N) (share cookie : bytes) (idx : N) (before : list Ext.ext)
@@ -91,7 +108,7 @@ Definition check (c : case) : bool :=
           let es := map hext_of_ext before in
           let shares := if g =? 0 then first_shares es else [(g, share)] in
           match marshal_hexts bbs0 h es, hrr_second_hello bbs0 8 (stream_for idx) h npsk shares cookie es with
-          | Ok r1, Ok (_, r2) => bytes_eqb r1 raw1 && bytes_eqb r2 raw2
+          | Ok r1, Ok (_, r2) => bytes_eqb r1 raw1 && bytes_eqb r2 raw2 && fresh_share share es
           | _, _ => false
           end
       end
